@@ -432,11 +432,12 @@ def execForLoop (prog : Program F) : Nat → Str → Ranger F → List (Stmt F) 
       match updateVar st lv v with
       | Option.none => .err (.goPanic "scope.update: unknown loop variable") st
       | some st1 =>
-        match execBlockNode prog fuel body st1 with
-        | .err o st' => .err o st'
-        | .ok .brk st' => .ok .normal st'
-        | .ok (.ret rv) st' => .ok (.ret rv) st'
-        | .ok .normal st' => execForLoop prog fuel lv r' body st'
+        -- each iteration runs the body in a scope of its own
+        match execBlockNode prog fuel body (pushScope st1) with
+        | .err o st' => .err o (popScope st')
+        | .ok .brk st' => .ok .normal (popScope st')
+        | .ok (.ret rv) st' => .ok (.ret rv) (popScope st')
+        | .ok .normal st' => execForLoop prog fuel lv r' body (popScope st')
 
 /-- evalNum on an optional step-range operand: the default is an (evaluated) literal -/
 def evalNumOr (prog : Program F) : Nat → Option (Expr F) → F → St F → Res F F
